@@ -36,6 +36,11 @@ clang CFGs of initTaskingSystem / numTaskingThreads with all callees that have a
            going out of scope) the previous handle's destructor runs *after* the new handle was constructed; if it writes
            the backend limit, the last write on the path is not n any more (recognised wrong).  TBB's global_control does
            this correctly inside the library and has no rkcommon destructor body, so it stays silent.
+  R-C13-12 "before initialisation numTaskingThreads() is 0": the cell numTaskingThreads() tests or returns is given a non-null
+           value only on paths that start in initTaskingSystem; every other entry point of the tasking-init sources is analysed
+           (callees inlined) and must leave it alone.  In the published-count form (numTaskingThreads returns a stored count)
+           R-C13-2 additionally requires the stored value to be the paired getter sampled after the previous owner of the
+           limit was released, and R-C13-3 that the cell is statically 0.
   R-C13-11 the object holding the process-wide handle is one object per program: if initTaskingSystem / numTaskingThreads are
            inline in the public header, the state they reach must not be a namespace-scope variable with internal linkage
            (`static` / anonymous namespace in a header = one copy per translation unit); a function-local static of an
@@ -233,6 +238,24 @@ def check_query(ctx, cfg, tus, tag):
             if isinstance(k, tuple) and k[0] == 'fact' and isinstance(k[1], tuple) and k[1][0] == 'glob':
                 globs.add(k[1])
     inst0 = 'numTaskingThreads [%s]' % tag
+    _MODE.pop(tag, None)
+    rets = {strip_site(p.ret) if (p.kind == 'return' and p.ret is not None) else None for p in paths}
+    if not globs and len(rets) == 1 and isinstance(next(iter(rets)), tuple) and next(iter(rets))[0] == 'glob':
+        # "published count": the function returns the content of one global cell that initTaskingSystem fills.
+        # Before initialisation the cell must hold 0 (static initial value); what is stored is judged in check_init.
+        C = next(iter(rets))
+        _MODE[tag] = 'published'
+        init0 = static_initial_value(tu, f, C)
+        if init0 == 0:
+            ctx.ok(R3, inst0 + ' count published in `%s`' % C[1].split('::')[-1], 'the cell is statically initialised to 0', tu.fn_loc(f))
+        elif init0 is None:
+            ctx.undecided(R3, inst0, 'cannot determine the static initial value of `%s`, which numTaskingThreads returns before '
+                          'initTaskingSystem' % C[1].split('::')[-1], tu.fn_loc(f))
+        else:
+            ctx.violation(R3, inst0, '`%s`, which numTaskingThreads returns, is statically initialised to %s: before initTaskingSystem '
+                          'the function returns %s, required: 0' % (C[1].split('::')[-1], init0, init0), tu.fn_loc(f),
+                          key='%s|%s|numTaskingThreads|%s:uninitialised-not-0' % (R3, file, cfg))
+        return C, None
     if len(globs) != 1:
         # no test of any global at all: every path admits the uninitialised state
         if not globs and all(p.kind == 'return' and p.ret is not None and p.ret.as_int() != 0 for p in paths):
@@ -289,6 +312,37 @@ def check_query(ctx, cfg, tus, tag):
                 ctx.undecided(R2, inst, 'returned value %s is not a recognised thread-count query (required: %s)'
                               % (show_val(ret), want), tu.fn_loc(f))
     return G, GT
+
+
+_MODE = {}      # tag -> 'published' when numTaskingThreads returns a stored count instead of querying the backend
+
+
+def static_initial_value(tu, f, C):
+    """value a namespace-scope arithmetic / atomic variable has before any code ran (None if it cannot be read off)"""
+    todo, seen = [f], set()
+    while todo:
+        g = todo.pop()
+        if g['id'] in seen or tu.body(g) is None:
+            continue
+        seen.add(g['id'])
+        for x in tu.walk(tu.body(g)):
+            if x.get('kind') == 'DeclRefExpr' and x.get('referencedDecl', {}).get('kind') == 'VarDecl' and \
+                    (tu.sd(x).get('q') == C[1] or C[1].endswith('::' + (x['referencedDecl'].get('name') or '?'))):
+                d = tu.node(x['referencedDecl'].get('id'))
+                if d is None:
+                    return None
+                lits = [y for y in tu.walk(d) if y.get('kind') in ('IntegerLiteral', 'CXXBoolLiteralExpr')]
+                if not d.get('init') or not lits:
+                    return 0 if not [y for y in tu.walk(d) if y.get('kind') in ('DeclRefExpr', 'CallExpr')] else None
+                if len(lits) == 1:
+                    v = lits[0].get('value')
+                    return int(v) if not isinstance(v, bool) else int(v)
+                return None
+            if x.get('kind') in ('CallExpr', 'CXXMemberCallExpr'):
+                c = tu.callee_fn(x)
+                if c is not None and not c['dep']:
+                    todo.append(c)
+    return None
 
 
 def expected_getter(cfg, ret):
@@ -388,7 +442,9 @@ def check_init(ctx, cfg, tus, tag, G, GT):
         bad = False
         # ---- R-C13-4: the cell numTaskingThreads() tests (a handle pointer, an "initialised" flag, ...) is set on return,
         #      and a path that returns early without any effect ignores the (re-)initialisation
-        if G is not None:
+        if G is not None and _MODE.get(tag) == 'published':
+            bad = check_published(ctx, cfg, tu, f, p, inst, tag, G, N, limits, limit_roots, file) or bad
+        elif G is not None:
             hv = p.mem(G)
             ha = hv.as_atom() if hv is not None else None
             gname = G[1].split('::')[-1]
@@ -447,9 +503,9 @@ def check_init(ctx, cfg, tus, tag, G, GT):
                     bad = bad_before
                     continue            # min/max that cannot change n on this path (e.g. max(n, -1) where n >= 1)
                 if cl is not None and cl[2]:
-                    report(ctx, p, R1, inst, 'for n in %s %s receives `%s`: the request is clamped with %s(n, %s), so a larger '
-                           'n is silently replaced and numTaskingThreads() does not return n' % (rng((max(lo, 1), hi)), limit_name(cfg),
-                           show_val(v), cl[0], show_val(cl[1])), e[4],
+                    report(ctx, p, R1, inst, 'for n in %s %s receives `%s`: the request is clamped with %s(n, %s), so a %s n is silently replaced: the '
+                           'backend does not run with (and report) the n that was asked for' % (rng((max(lo, 1), hi)), limit_name(cfg),
+                           show_val(v), cl[0], show_val(cl[1]), 'larger' if cl[0] == 'min' else 'smaller'), e[4],
                            '%s|%s|initTaskingSystem|%s:limit-value-clamped' % (R1, file, cfg))
                 elif mentions_only(v, N) or (isinstance(sv, tuple) and sv and sv[0] == 'hw'):
                     report(ctx, p, R1, inst, 'for n in %s %s receives `%s` instead of n' % (rng((max(lo, 1), hi)),
@@ -584,6 +640,50 @@ def check_init(ctx, cfg, tus, tag, G, GT):
             ctx.ok(R1, inst, '; '.join('%s(%s)' % (limit_name(cfg), show_val(limit_value(cfg, e))) for e in limits) or
                    'backend default left in place', tu.fn_loc(f))
     return n_inst
+
+
+def check_published(ctx, cfg, tu, f, p, inst, tag, C, N, limits, limit_roots, file):
+    """numTaskingThreads returns the global cell C.  On every path of initTaskingSystem the value stored in C must be the
+    paired getter, sampled at a point where the new limit is the only one in force: under TBB the active value is the
+    minimum over all live global_control objects, so a sample taken before the previous owner is released reports the
+    old limit.  -> True if something was reported."""
+    R2, R4 = 'R-C13-2', 'R-C13-4'
+    cname = C[1].split('::')[-1]
+    hv = p.mem(C)
+    if hv is None:
+        effects = limits or [k for k in p.stores() if k[0] in ('glob', 'field')]
+        report(ctx, p, R4, inst, 'this path returns without storing a thread count in `%s`, the value numTaskingThreads() returns%s'
+               % (cname, '' if effects else ' (and without any other effect: the re-initialisation is ignored)'), tu.fn_loc(f),
+               '%s|%s|initTaskingSystem|%s:handle-not-replaced' % (R4, file, cfg))
+        return True
+    if hv == Poly.atom(N) or strip_site(hv) == N:
+        report(ctx, p, R2, inst, '`%s` (returned by numTaskingThreads) is set to the request n itself, not to what the backend was '
+               'configured to: it is not positive for n <= 0 and ignores the backend' % cname, tu.fn_loc(f),
+               '%s|%s|numTaskingThreads|%s:wrong-getter' % (R2, file, cfg))
+        return True
+    want, ok, why = expected_getter(cfg, hv)
+    if ok is None:
+        ctx.undecided(R2, inst, '`%s` (returned by numTaskingThreads) is set to %s, not a recognised thread-count query (required: %s)'
+                      % (cname, show_val(hv), want), tu.fn_loc(f))
+        return True
+    if ok is False:
+        report(ctx, p, R2, inst, '`%s` (returned by numTaskingThreads) is set to %s, required: %s (%s)' % (cname, show_val(hv), want, why),
+               tu.fn_loc(f), '%s|%s|numTaskingThreads|%s:wrong-getter' % (R2, file, cfg))
+        return True
+    if cfg == 'TBB':
+        sv = strip_site(hv)
+        gi = next((i for i, e in enumerate(p.events) if e[0] == 'call' and e[1] == sv[1]), None)
+        late = [e for i, e in enumerate(p.events) if gi is not None and i > gi and e[0] == 'store' and e[1] in limit_roots
+                and p.bounds(e[1])[1] >= 1]
+        if late:
+            report(ctx, p, R2, inst, '`%s` (returned by numTaskingThreads) is set to %s sampled at %s, while the previous owner of the limit '
+                   '(`%s`, replaced only afterwards at %s) is still alive: TBB reports the minimum over all live global_control objects, '
+                   'so after init(2); init(8) the published count stays 2 although the limit becomes 8'
+                   % (cname, show_val(hv), p.events[gi][4], late[0][1][1].split('::')[-1], late[0][3]), p.events[gi][4],
+                   '%s|%s|initTaskingSystem|%s:count-sampled-while-previous-limit-alive' % (R2, file, cfg))
+            return True
+    ctx.ok(R2, inst, '%s = %s' % (cname, show_val(hv)), tu.fn_loc(f))
+    return False
 
 
 def limit_name(cfg):
@@ -736,8 +836,62 @@ def check_enki(ctx, tu, tag):
 
 
 # ================================================================================================
+def check_only_init_initialises(ctx, cfg, tus, tag, G):
+    """R-C13-12: "before initialisation numTaskingThreads() is 0".  The cell numTaskingThreads() tests / returns must be given a
+    non-null value only by initTaskingSystem: every other entry point of the tasking-init sources (a function there that no
+    other function of those sources calls - what parallel_for, schedule, ... reach) is analysed with its callees inlined; a
+    path of such an entry that leaves a possibly non-null value in the cell initialises the system behind the API."""
+    R12 = 'R-C13-12'
+    if G is None:
+        return 0
+    group = []
+    for ti, tu in enumerate(tus):
+        for f in tu.functions.values():
+            fn = os.path.normpath(tu.fn_file(f))
+            if f['dep'] or tu.cfg(f) is None or not fn.startswith('rkcommon/tasking/') or not fn.endswith('.cpp') or 'enkiTS' in fn:
+                continue
+            group.append((ti, tu, f))
+    called = set()
+    for ti, tu, f in group:
+        for x in tu.walk(tu.body(f)) if tu.body(f) is not None else ():
+            if x.get('kind') in ('CallExpr', 'CXXMemberCallExpr', 'CXXConstructExpr', 'CXXOperatorCallExpr'):
+                q = tu.sd(x).get('q')
+                if q:
+                    called.add(q)
+    n = 0
+    gname = G[1].split('::')[-1]
+    for ti, tu, f in group:
+        if f.get('rec') or f['q'] in (INIT, QUERY) or f['q'] in called or '(lambda' in f['q'] or '::operator' in f['q']:
+            continue
+        n += 1
+        inst = 'entry point %s [%s]' % (f['q'].replace('rkcommon::tasking::', ''), tag)
+        try:
+            paths = Flow(tus, api=is_api, hw=is_hw).analyse(ti, f)
+        except RuntimeError as e:
+            ctx.undecided(R12, inst, 'value-flow analysis did not converge: %s' % e, tu.fn_loc(f))
+            continue
+        hit = None
+        for p in paths:
+            v = p.mem(G)
+            if v is not None and v.range(p.bounds)[1] >= 1:
+                hit = (p, v)
+                break
+        if hit is None:
+            ctx.ok(R12, inst, 'does not set `%s`' % gname, tu.fn_loc(f))
+            continue
+        p, v = hit
+        st = next((e for e in p.events if e[0] == 'store' and e[1] == G), None)
+        report(ctx, p, R12, inst, '`%s`, the state numTaskingThreads() reports from, is also set (to %s, at %s) on a path of %s, which runs '
+               'without initTaskingSystem (e.g. the lazy start-up when a tasking primitive is used first): numTaskingThreads() is then '
+               'non-zero although the tasking system was never initialised' % (gname, show_val(v), st[3] if st else tu.fn_loc(f),
+               f['q'].split('::')[-1]), st[3] if st else tu.fn_loc(f),
+               '%s|%s|%s|%s:initialised-state-set-outside-init' % (R12, os.path.normpath(tu.fn_file(f)), f['q'].split('::')[-1], cfg))
+    return n
+
+
 def run_config(ctx, cfg, tus, tag):
     G, GT = check_query(ctx, cfg, tus, tag)
+    check_only_init_initialises(ctx, cfg, tus, tag, G)
     return check_init(ctx, cfg, tus, tag, G, GT)
 
 
@@ -967,6 +1121,8 @@ def run(ctx):
     ctx.describe('R-C13-7', 'initTaskingSystem never empties the installed handle before the new one is constructed (no window without a limit)')
     ctx.describe('R-C13-10', 'on return from initTaskingSystem the last write to the backend limit is the one carrying n: no destructor '
                              '(of the previous handle) running inside the call writes another value afterwards')
+    ctx.describe('R-C13-12', 'the state numTaskingThreads() reports from is set only by initTaskingSystem: no other entry point of the '
+                             'tasking-init sources (lazy start-up, ...) leaves it non-null')
     ctx.describe('R-C13-11', 'the handle is one object per program: inline definitions in the public header must not reach a namespace-scope '
                              'variable with internal linkage')
     ctx.describe('R-C13-8', 'when initTaskingSystem returns no persistent cell other than the global handle holds the previous handle '
